@@ -273,7 +273,7 @@ class Tensor(rigid.Box):
         return Tensor(dom, cod, Tensor.np.zeros(dom @ cod))
 
     def subs(self, *args):
-        return self.map(lambda x: getattr(x, "subs", lambda y, *_: y)(*args))
+        return self.map(lambda x: getattr(x, "subs", lambda *_: x)(*args))
 
     def grad(self, var, **params):
         """ Gradient with respect to variables. """
